@@ -779,6 +779,6 @@ MUTANTS = [
 TWINS = [
     dict(name='lstsq-vstack', file=LSTSQ, find="    c_matrix = np.zeros((m+n, n))\n    c_matrix[0:m, :] = w_matrix[:, :]\n    c_matrix[m:, :] = tikhonov_matrix[:, :]\n", replace="    c_matrix = np.vstack((w_matrix, tikhonov_matrix))\n"),
     dict(name='sart-positive-length-guard', file=SART, find="                    if ray_lengths_mv[ith_obs] == 0:\n                        continue\n                    prop_ray_length = geometry_matrix_mv[ith_obs, jth_cell] * inv_ray_lengths_mv[ith_obs]  # fraction of ray length/volume\n                    obs_diff += prop_ray_length * (obs_vector_mv[ith_obs] - y_hat_vector_mv[ith_obs])",
-         replace="                    if ray_lengths_mv[ith_obs] != 0:\n                        obs_diff += geometry_matrix_mv[ith_obs, jth_cell] / ray_lengths_mv[ith_obs] * (obs_vector_mv[ith_obs] - y_hat_vector_mv[ith_obs])", occurrence=0, of=2),
+         replace="                    if ray_lengths_mv[ith_obs] != 0:\n                        obs_diff += geometry_matrix_mv[ith_obs, jth_cell] / ray_lengths_mv[ith_obs] * (obs_vector_mv[ith_obs] - y_hat_vector_mv[ith_obs])"),
     dict(name='penalty-hoisted', file=SART, find="        grad_penalty = np.dot(laplacian_matrix, solution) * beta_laplace", replace="        grad_penalty = np.dot(laplacian_matrix, solution) * beta_laplace  # (Lap x) scaled"),
 ]
